@@ -8,6 +8,8 @@ import (
 	"os"
 	"os/exec"
 	"path/filepath"
+	"regexp"
+	"runtime"
 	"strings"
 	"syscall"
 	"time"
@@ -33,6 +35,15 @@ type rangeKillCase struct {
 	KillAt  int    `json:"kill_after_ack"`
 	DelayUs int    `json:"delay_us"`
 	DB      string `json:"db,omitempty"`
+	// KillWrite > 0: the crash point is a system call, not a moment: the child runs under strace, which kills it
+	// (SIGKILL) on entering its KillWrite-th pwrite64 to the database file - between two page writes of one
+	// lease transaction, where only the rollback journal on disk makes the file whole again.
+	KillWrite int `json:"kill_at_db_write,omitempty"`
+	// Calibrate: the write to die in is found first - the same history runs to its end under strace, the
+	// trace of its database writes tells which of them make the file longer (a b-tree page split: the header
+	// page already announces the new page before it exists), and the kill is placed on entering one of those
+	// (or the write next to it).
+	Calibrate bool `json:"calibrate,omitempty"`
 }
 
 type rangeKillEngine struct{}
@@ -45,6 +56,17 @@ func (rangeKillEngine) Gen(rng *rand.Rand, tier string, i int) any {
 	c.KillAt = 1 + rng.Intn(c.Reqs-1)
 	if rng.Intn(3) > 0 {
 		c.DelayUs = rng.Intn(4000)
+	}
+	if rng.Intn(5) < 2 {
+		// a new lease costs 3-5 page writes to the database file (header page, table leaf, index leaf, a new page
+		// when a leaf splits); renewals cost 2-3
+		c.KillWrite = 1 + rng.Intn(4*c.Reqs)
+		c.DelayUs = 0
+		if rng.Intn(2) == 0 {
+			c.Calibrate = true
+			c.N, c.Reqs = 512, 150+rng.Intn(250)
+		}
+		c.KillAt = c.Reqs
 	}
 	return c
 }
@@ -92,6 +114,9 @@ func rangeKillChild() {
 		fmt.Fprintln(os.Stderr, "child: bad arg", err)
 		os.Exit(3)
 	}
+	if c.KillWrite > 0 {
+		runtime.LockOSThread() // strace counts system calls per thread: all database writes come from this one
+	}
 	start := uint32(0xc0a81400)
 	h, err := rangeplugin.Plugin.Setup4(c.DB, model.U32IP(start).String(), model.U32IP(start+uint32(c.N)-1).String(), c.Lease)
 	if err != nil {
@@ -100,6 +125,7 @@ func rangeKillChild() {
 	}
 	s := newSrv4([]handler.Handler4{h}, loIface())
 	sched := killSchedule(c.Seed, c.Reqs)
+	fmt.Printf("pid %d\n", os.Getpid())
 	for i, cl := range sched {
 		mac := killClientMac(c.Seed, cl)
 		p := pkt.Request4(uint32(i+1), mac, byte(1+2*(i%2)), pkt.O4(12, []byte(fmt.Sprintf("k%d", cl))...))
@@ -131,6 +157,34 @@ func (rangeKillEngine) Run(ctx *fw.Ctx, cs any) {
 		return
 	}
 	cmd := exec.Command(self)
+	if c.KillWrite > 0 {
+		st, err := exec.LookPath("strace")
+		if err != nil {
+			ctx.Count("rangekill.strace_unavailable", 1)
+			return
+		}
+		if c.Calibrate {
+			grow, total := calibrateDBWrites(st, self, dir, cc)
+			os.Remove(cc.DB)
+			os.Remove(cc.DB + "-journal")
+			if len(grow) == 0 {
+				ctx.Count("rangekill.calibration_found_no_growing_write", 1)
+				return
+			}
+			r := rand.New(rand.NewSource(c.Seed ^ 0x6b696c6c))
+			cc.KillWrite = grow[r.Intn(len(grow))] + []int{0, 0, 0, 1, -1}[r.Intn(5)]
+			if cc.KillWrite < 1 {
+				cc.KillWrite = 1
+			}
+			c.KillWrite = cc.KillWrite
+			arg, _ = json.Marshal(cc)
+			ctx.Count("rangekill.calibrated_kill_points", 1)
+			ctx.Count("rangekill.calibration_file_growing_writes_seen", int64(len(grow)))
+			ctx.Count("rangekill.calibration_database_writes_seen", int64(total))
+		}
+		os.WriteFile(cc.DB, nil, 0o644) // the path filter wants an existing file; an empty file is a new database
+		cmd = exec.Command(st, "-f", "-q", "-P", cc.DB, "-e", "trace=pwrite64", "-e", fmt.Sprintf("inject=pwrite64:signal=SIGKILL:when=%d", c.KillWrite), "-o", "/dev/null", self)
+	}
 	cmd.Env = append(os.Environ(), "VERIF_CHILD=rangekill", "VERIF_CHILD_ARG="+string(arg))
 	stdout, _ := cmd.StdoutPipe()
 	cmd.Stderr = nil
@@ -143,12 +197,17 @@ func (rangeKillEngine) Run(ctx *fw.Ctx, cs any) {
 	acks := 0
 	sc := bufio.NewScanner(stdout)
 	killed := false
+	childPid := 0
 	kill := func() {
 		if !killed {
+			if childPid > 0 {
+				syscall.Kill(childPid, syscall.SIGKILL) // the server process itself when strace stands in between
+			}
 			syscall.Kill(cmd.Process.Pid, syscall.SIGKILL)
 			killed = true
 		}
 	}
+	ended := false
 	timer := time.AfterFunc(60*time.Second, kill) // watchdog only
 	for sc.Scan() {
 		f := strings.Fields(sc.Text())
@@ -158,6 +217,10 @@ func (rangeKillEngine) Run(ctx *fw.Ctx, cs any) {
 		switch f[0] {
 		case "setuperr":
 			ctx.Viol("C03", "setup-fails-fresh", "child: %s", sc.Text())
+		case "pid":
+			if c.KillWrite > 0 {
+				fmt.Sscanf(f[1], "%d", &childPid)
+			}
 		case "send":
 			fmt.Sscanf(f[1], "%d", &inflight)
 			if acks >= c.KillAt && c.DelayUs > 0 {
@@ -179,6 +242,7 @@ func (rangeKillEngine) Run(ctx *fw.Ctx, cs any) {
 				kill()
 			}
 		case "end":
+			ended = true
 			kill()
 		}
 	}
@@ -187,6 +251,13 @@ func (rangeKillEngine) Run(ctx *fw.Ctx, cs any) {
 	cmd.Wait()
 	ctx.Eval("C03", 1)
 	ctx.Count("rangekill.kills", 1)
+	if c.KillWrite > 0 {
+		if ended {
+			ctx.Count("rangekill.syscall_kill_point_beyond_history", 1)
+		} else {
+			ctx.Count("rangekill.killed_entering_a_database_write", 1)
+		}
+	}
 	if inflight >= 0 {
 		ctx.Count("rangekill.killed_mid_request", 1)
 	}
@@ -201,7 +272,7 @@ func (rangeKillEngine) Run(ctx *fw.Ctx, cs any) {
 	start := uint32(0xc0a81400)
 	h, err := rangeplugin.Plugin.Setup4(cc.DB, model.U32IP(start).String(), model.U32IP(start+uint32(c.N)-1).String(), c.Lease)
 	if err != nil {
-		ctx.Viol("C03", "restart-fails-after-kill:"+restartClass(err), "reopening the database after SIGKILL (after ack %d, +%dus) failed: %v", c.KillAt, c.DelayUs, err)
+		ctx.Viol("C03", "restart-fails-after-kill:"+restartClass(err), "reopening the database after SIGKILL (after ack %d, +%dus, at database write %d) failed: %v", c.KillAt, c.DelayUs, c.KillWrite, err)
 		return
 	}
 	s := newSrv4([]handler.Handler4{h}, loIface())
@@ -234,4 +305,83 @@ func (rangeKillEngine) Run(ctx *fw.Ctx, cs any) {
 	if ctx.WantSample("C03") {
 		ctx.Sample("C03", map[string]any{"kill_case": c, "acked_bindings": len(acked), "killed_mid_request": inflight >= 0})
 	}
+}
+
+var pwriteRe = regexp.MustCompile(`^(\d+) +pwrite64\(\d+, .*, (\d+), (\d+)\) += (\d+)`)
+
+// calibrateDBWrites runs the history of cc to its end under strace and returns, for the thread that wrote the
+// database, the 1-based numbers of the pwrite64 calls that made the file longer, and how many there were.
+func calibrateDBWrites(st, self, dir string, cc rangeKillCase) ([]int, int) {
+	trace := filepath.Join(dir, "cal.trace")
+	cc.KillWrite = 1 << 30
+	arg, _ := json.Marshal(cc)
+	os.WriteFile(cc.DB, nil, 0o644)
+	cmd := exec.Command(st, "-f", "-q", "-P", cc.DB, "-e", "trace=pwrite64", "-o", trace, self)
+	cmd.Env = append(os.Environ(), "VERIF_CHILD=rangekill", "VERIF_CHILD_ARG="+string(arg))
+	stdout, _ := cmd.StdoutPipe()
+	if cmd.Start() != nil {
+		return nil, 0
+	}
+	pid := 0
+	done := make(chan struct{})
+	timer := time.AfterFunc(120*time.Second, func() { syscall.Kill(cmd.Process.Pid, syscall.SIGKILL) })
+	go func() {
+		sc := bufio.NewScanner(stdout)
+		for sc.Scan() {
+			f := strings.Fields(sc.Text())
+			if len(f) == 2 && f[0] == "pid" {
+				fmt.Sscanf(f[1], "%d", &pid)
+			}
+			if len(f) == 1 && f[0] == "end" {
+				break
+			}
+		}
+		close(done)
+	}()
+	<-done
+	timer.Stop()
+	if pid > 0 {
+		syscall.Kill(pid, syscall.SIGKILL)
+	}
+	syscall.Kill(cmd.Process.Pid, syscall.SIGKILL)
+	cmd.Wait()
+	data, _ := os.ReadFile(trace)
+	os.Remove(trace)
+	type tw struct {
+		n    int
+		grow []int
+	}
+	per := map[string]*tw{}
+	var size int64
+	for _, line := range strings.Split(string(data), "\n") {
+		m := pwriteRe.FindStringSubmatch(line)
+		if m == nil {
+			continue
+		}
+		var cnt, off int64
+		fmt.Sscanf(m[2], "%d", &cnt)
+		fmt.Sscanf(m[3], "%d", &off)
+		t := per[m[1]]
+		if t == nil {
+			t = &tw{}
+			per[m[1]] = t
+		}
+		t.n++
+		if off+cnt > size {
+			if size > 0 {
+				t.grow = append(t.grow, t.n)
+			}
+			size = off + cnt
+		}
+	}
+	var best *tw
+	for _, t := range per {
+		if best == nil || t.n > best.n {
+			best = t
+		}
+	}
+	if best == nil {
+		return nil, 0
+	}
+	return best.grow, best.n
 }
